@@ -121,6 +121,9 @@ pub fn j_spelling(si: usize, vi: usize, neg: bool, out: &mut Local) {
                 out.sample("c11.spelling", args, format!("{text:?} -> {want}"), neg);
             }
         }
+        // "hr", "minutes" and "sec" are accepted by the code today but are not among the documented spellings: a
+        // refusal is a don't-care, a wrong value is not
+        Ok(Err(_)) if ["hr", "minutes", "sec"].contains(&sp) => out.dc(1),
         Ok(g) => out.viol("c11.spelling", format!("wrong,{sp},{}", if neg { "negative" } else { "positive" }), args, format!("{text:?} -> {want}"), format!("{g:?}")),
         Err(p) => out.viol("c11.spelling", format!("panic:{},{sp}", p.class()), args, "no panic".into(), format!("{} {}", p.loc, p.msg)),
     }
